@@ -164,7 +164,7 @@ impl Property for P {
     }
     fn cases(tier: Tier) -> u64 {
         match tier {
-            Tier::Quick => 300_000,
+            Tier::Quick => 1_200_000,
             Tier::Thorough => 16_000_000,
         }
     }
@@ -187,4 +187,11 @@ impl Property for P {
     fn min_nontrivial_share() -> f64 {
         0.2
     }
+}
+
+pub fn decode(data: &[u8]) -> Case {
+    let mut r = crate::fuzzdec::Reader::new(data);
+    let mode = r.u8();
+    let spec = crate::fuzzdec::optspec(&mut r, false, false);
+    Case { text: crate::fuzzdec::text(mode, r.rest()), spec }
 }
